@@ -524,4 +524,380 @@ theorem assemble_rel (ρn : String → String) (hn : ∀ a b, ρn a = ρn b → 
     exact nodalRow_rel ρn hn h5 p.2 p.1
   · rw [assemble_nodal, assemble_nodal, hpairs]
 
+/-! ### the wrappers keep the label correspondence -/
+
+/-- node, type and boolean flag of a wrapped row -/
+theorem structuredMapRow_fields (name : String) (ext : List String) (m : MapRow) :
+    (structuredMapRow name ext m).node =
+      (match m.node with
+        | some nd => if ext.contains nd then some nd else some (name ++ "_internal_" ++ nd)
+        | none => none) ∧
+    (structuredMapRow name ext m).kind =
+      (match m.node with
+        | some nd => if ext.contains nd then m.kind else innerKind m.kind
+        | none => m.kind) ∧
+    (structuredMapRow name ext m).isBool = m.isBool := by
+  unfold structuredMapRow
+  by_cases hv : (m.varName == "nan") = true <;> simp only [hv, if_true, Bool.false_eq_true, if_false] <;>
+    cases hnode : m.node <;> simp only [] <;> (try split) <;> simp
+
+theorem innerKind_of_ne_d (k : VarKind) (h : k ≠ .d) : innerKind k = k := by
+  cases k <;> first | rfl | exact absurd rfl h
+
+theorem rel_ren (ρa ρn : String → String) (a : AssetProblem) : AssetRel ρn a (renAsset ρa ρn a) :=
+  ⟨rfl, rfl, rfl, rfl, rfl, All2.map_right _ _ _ fun _ _ => ⟨rfl, rfl, rfl, rfl, rfl, fun _ => rfl⟩⟩
+
+theorem rowRel_structured (ρn : String → String) (hn : ∀ a b, ρn a = ρn b → a = b) (name name' : String)
+    (ext : List String) (m m' : MapRow) (h : RowRel ρn m m') :
+    RowRel ρn (structuredMapRow name ext m) (structuredMapRow name' (ext.map ρn) m') := by
+  obtain ⟨n1, k1, b1⟩ := structuredMapRow_fields name ext m
+  obtain ⟨n2, k2, b2⟩ := structuredMapRow_fields name' (ext.map ρn) m'
+  have hkind : (structuredMapRow name' (ext.map ρn) m').kind = (structuredMapRow name ext m).kind := by
+    rw [k1, k2, h.kind]
+    by_cases hd : m.kind = .d
+    · rw [h.node hd]
+      cases hnode : m.node with
+      | none => rfl
+      | some nd => simp only [Option.map_some, contains_map_inj ρn hn]
+    · have hi := innerKind_of_ne_d m.kind hd
+      have e1 : ∀ o : Option String, (match o with
+          | some nd => if (ext.map ρn).contains nd then m.kind else innerKind m.kind
+          | none => m.kind) = m.kind := by
+        intro o; cases o with
+        | none => rfl
+        | some nd => simp only [hi, ite_self]
+      have e2 : ∀ o : Option String, (match o with
+          | some nd => if ext.contains nd then m.kind else innerKind m.kind
+          | none => m.kind) = m.kind := by
+        intro o; cases o with
+        | none => rfl
+        | some nd => simp only [hi, ite_self]
+      rw [e1, e2]
+  refine ⟨?_, ?_, ?_, hkind, ?_, ?_⟩
+  · rw [structuredMapRow_var, structuredMapRow_var, h.var]
+  · rw [structuredMapRow_factor, structuredMapRow_factor, h.factor]
+  · rw [structuredMapRow_step, structuredMapRow_step, h.step]
+  · rw [b1, b2, h.isBool]
+  · intro hk
+    have hd := structuredMapRow_kind_d name ext m hk
+    rw [n1, n2, h.node hd]
+    rw [k1] at hk
+    cases hnode : m.node with
+    | none => rfl
+    | some nd =>
+      rw [hnode] at hk
+      simp only [Option.map_some, contains_map_inj ρn hn]
+      by_cases he : ext.contains nd = true
+      · simp only [he, if_true, Option.map_some]
+      · exfalso
+        simp only [he, Bool.false_eq_true, if_false, hd, innerKind] at hk
+        cases hk
+
+/-- **the structured wrapper keeps the label correspondence** (whatever the two wrapper names are) -/
+theorem rel_structured (ρn : String → String) (hn : ∀ a b, ρn a = ρn b → a = b) (name name' : String)
+    (ext : List String) {as as' : List AssetProblem} (h : All2 (AssetRel ρn) as as') (gridI : List Nat) :
+    AssetRel ρn (structured name ext as gridI) (structured name' (ext.map ρn) as' gridI) := by
+  obtain ⟨h1, h2, h3, h4, _, h6⟩ := assemble_rel ρn hn h gridI ext
+  refine ⟨h1, h2, h3, ?_, rfl, ?_⟩
+  · show (assemble as' gridI (ext.map ρn)).rows.map Row.nToS = (assemble as gridI ext).rows.map Row.nToS
+    rw [h4]
+  · exact All2.map_both _ _ _ _ (fun m m' => rowRel_structured ρn hn name name' ext m m') h6
+
+theorem all2_dispVars (ρn : String → String) {M M' : List MapRow} (h : All2 (RowRel ρn) M M') :
+    dispVars M' = dispVars M := by
+  unfold dispVars
+  congr 1
+  induction h with
+  | nil => rfl
+  | @cons m m' M M' hr _ ih =>
+    have hc : isCapRow m' = isCapRow m := by unfold isCapRow; rw [hr.kind, hr.isBool]
+    simp only [List.filter_cons, hc]
+    by_cases hd : isCapRow m = true
+    · simp only [hd, if_true, List.map_cons, ih, hr.var]
+    · simp only [hd, if_false, ih, Bool.false_eq_true]
+
+/-- **the scaled wrapper keeps the label correspondence** (whatever the names in the two parameter sets are) -/
+theorem rel_scaled (ρn : String → String) (p p' : ScaledP) (hmin : p'.minScale = p.minScale)
+    (hmax : p'.maxScale = p.maxScale) (hnorm : p'.normScale = p.normScale) (hfix : p'.fixCosts = p.fixCosts)
+    (b b' : AssetProblem) (h : AssetRel ρn b b') (dtSum : Rat) :
+    AssetRel ρn (buildScaled p b dtSum) (buildScaled p' b' dtSum) := by
+  unfold buildScaled
+  rw [h.l]
+  by_cases h0 : b.l.length = 0
+  · rw [if_pos h0, if_pos h0]; exact h
+  · rw [if_neg h0, if_neg h0]
+    have hI := all2_dispVars ρn h.map
+    unfold buildScaledCore
+    refine ⟨?_, ?_, ?_, ?_, h.nodes, ?_⟩
+    · simp only [h.c, hfix]
+    · simp only [h.l, hI, hmin, hmax, hnorm]
+    · simp only [h.u, hI, hmax, hnorm]
+    · simp only [h.rows, h.l, h.u, hI, hnorm]
+    · simp only [h.l]
+      refine All2.append (All2.map_both _ _ _ _ ?_ h.map) (.cons ?_ .nil)
+      · intro m m' hr
+        exact ⟨hr.var, hr.factor, hr.step, hr.kind, hr.isBool, hr.node⟩
+      · exact ⟨rfl, rfl, rfl, rfl, rfl, fun hk => by cases hk⟩
+
+/-- flows of related asset problems agree under the renamed node -/
+theorem flowOf_rel (ρn : String → String) (hn : ∀ a b, ρn a = ρn b → a = b) (a a' : AssetProblem)
+    (h : AssetRel ρn a a') (n : String) (t : Nat) (y : Vec) : flowOf a' (ρn n) t y = flowOf a n t y := by
+  unfold flowOf
+  have := all2_filter_disp ρn hn h.map n t
+  have e : ∀ M : List MapRow, M.map (fun m => m.contrib y) =
+      (M.map (fun m => (m.var, m.factor))).map (fun q => y q.1 * q.2) := by
+    intro M; rw [List.map_map]; rfl
+  rw [e, e, this]
+
+theorem feasible_rel (ρn : String → String) (a a' : AssetProblem) (h : AssetRel ρn a a') (y : Vec) :
+    a'.FeasibleRelaxed y ↔ a.FeasibleRelaxed y := by
+  unfold AssetProblem.FeasibleRelaxed
+  rw [h.l, h.u, h.rows]
+
+/-! ### the labels a structured asset writes -/
+
+/-- the node label a structured asset writes for inner node `nd` -/
+def outNode (name : String) (ext : List String) (nd : String) : String :=
+  if ext.contains nd then nd else name ++ "_internal_" ++ nd
+
+/-- the variable name a structured asset writes for variable `v` of inner asset `a` -/
+def outVar (v a : String) : String := if v == "nan" then v else v ++ "__" ++ a
+
+theorem structuredMapRow_labels (name : String) (ext : List String) (m : MapRow) :
+    (structuredMapRow name ext m).node = m.node.map (outNode name ext) ∧
+    (structuredMapRow name ext m).varName = outVar m.varName m.asset ∧
+    (structuredMapRow name ext m).asset = name := by
+  refine ⟨?_, ?_, structuredMapRow_asset name ext m⟩
+  · rw [(structuredMapRow_fields name ext m).1]
+    cases m.node with
+    | none => rfl
+    | some nd => simp only [Option.map_some, outNode]; split <;> rfl
+  · unfold structuredMapRow outVar
+    by_cases hv : (m.varName == "nan") = true <;> simp only [hv, if_true, Bool.false_eq_true, if_false] <;>
+      cases hnode : m.node <;> simp only [] <;> (try split) <;> rfl
+
+/-- no external node carries the label the wrapper writes for an inner node -/
+def NoClash (name : String) (ext nodes : List String) : Prop :=
+  ∀ e ∈ ext, ∀ nd ∈ nodes, nd ∉ ext → e ≠ name ++ "_internal_" ++ nd
+
+/-- **exact condition for the node labels**: the wrapper's node labelling is injective on the nodes of the inner
+    portfolio iff no external node is called `<name>_internal_<inner node>` -/
+theorem outNode_inj_iff (name : String) (ext nodes : List String) (hsub : ∀ e ∈ ext, e ∈ nodes) :
+    (∀ a ∈ nodes, ∀ b ∈ nodes, outNode name ext a = outNode name ext b → a = b) ↔ NoClash name ext nodes := by
+  constructor
+  · intro h e he nd hnd hne heq
+    have h1 : outNode name ext e = e := by simp [outNode, he]
+    have h2 : outNode name ext nd = name ++ "_internal_" ++ nd := by simp [outNode, hne]
+    have := h e (hsub e he) nd hnd (by rw [h1, h2]; exact heq)
+    exact hne (this ▸ he)
+  · intro h a ha b hb heq
+    unfold outNode at heq
+    by_cases hae : a ∈ ext <;> by_cases hbe : b ∈ ext
+    · simpa [hae, hbe] using heq
+    · simp only [List.contains_iff_mem, hae, hbe, if_true, if_false] at heq
+      exact absurd heq (h a hae b hb hbe)
+    · simp only [List.contains_iff_mem, hae, hbe, if_true, if_false] at heq
+      exact absurd heq.symm (h b hbe a ha hae)
+    · simp only [List.contains_iff_mem, hae, hbe, if_false] at heq
+      exact (String.append_right_inj _).mp heq
+
+/-- sufficient for the variable names: an asset name without underscore can be read off the written name -/
+theorem suffix_inj (v v' a a' : String) (ha : '_' ∉ a.toList) (ha' : '_' ∉ a'.toList)
+    (h : v ++ "__" ++ a = v' ++ "__" ++ a') : v = v' ∧ a = a' := by
+  have hl := congrArg String.toList h
+  simp only [String.toList_append] at hl
+  have hsep : ("__" : String).toList = ['_', '_'] := by decide
+  rw [hsep] at hl
+  have hr := congrArg List.reverse hl
+  simp only [List.reverse_append, List.append_assoc] at hr
+  have htw : ∀ (x : List Char) (rest : List Char), '_' ∉ x →
+      List.takeWhile (fun c => c != '_') (x.reverse ++ (['_', '_'].reverse ++ rest)) = x.reverse := by
+    intro x rest hx
+    rw [List.takeWhile_append_of_pos]
+    · simp
+    · intro c hc
+      have : c ∈ x := List.mem_reverse.mp hc
+      have hne : c ≠ '_' := fun e => hx (e ▸ this)
+      simpa using hne
+  have h1 := htw a.toList v.toList.reverse ha
+  have h2 := htw a'.toList v'.toList.reverse ha'
+  rw [hr, h2] at h1
+  have haa : a.toList = a'.toList := by
+    have := congrArg List.reverse h1
+    simpa using this.symm
+  have ha_eq : a = a' := String.ext haa
+  subst ha_eq
+  have hv := (String.append_left_inj a).mp h
+  exact ⟨(String.append_left_inj "__").mp hv, rfl⟩
+
+/-- the name of an unnamed variable ("nan") is never a written name -/
+theorem nan_ne_written (v a : String) : "nan" ≠ v ++ "__" ++ a := by
+  intro h
+  have hl := congrArg String.toList h
+  simp only [String.toList_append] at hl
+  have hsep : ("__" : String).toList = ['_', '_'] := by decide
+  have hnan : ("nan" : String).toList = ['n', 'a', 'n'] := by decide
+  rw [hsep, hnan] at hl
+  have : '_' ∈ ['n', 'a', 'n'] := by rw [hl]; simp
+  revert this; decide
+
+/-! ### object trees: wrappers in wrappers, lists permuted at every level -/
+
+/-- correspondence of asset problems as a portfolio sees them, both directions -/
+def Sim (a a' : AssetProblem) : Prop := Fwd a a' ∧ Fwd a' a
+
+theorem Sim.refl (a : AssetProblem) : Sim a a := ⟨Fwd.refl a, Fwd.refl a⟩
+theorem Sim.symm {a a' : AssetProblem} (h : Sim a a') : Sim a' a := ⟨h.2, h.1⟩
+theorem Sim.trans {a b c : AssetProblem} (h1 : Sim a b) (h2 : Sim b c) : Sim a c :=
+  ⟨h1.1.trans h2.1, h2.2.trans h1.2⟩
+
+theorem All2.flip {α β : Type} {R : α → β → Prop} {l : List α} {l' : List β} (h : All2 R l l') :
+    All2 (fun b a => R a b) l' l := by
+  induction h with
+  | nil => exact .nil
+  | cons hab _ ih => exact .cons hab ih
+
+theorem All2.imp {α β : Type} {R S : α → β → Prop} (hRS : ∀ a b, R a b → S a b) {l : List α} {l' : List β}
+    (h : All2 R l l') : All2 S l l' := by
+  induction h with
+  | nil => exact .nil
+  | cons hab _ ih => exact .cons (hRS _ _ hab) ih
+
+theorem All2.refl {α : Type} {R : α → α → Prop} (hR : ∀ a, R a a) (l : List α) : All2 R l l := by
+  induction l with
+  | nil => exact .nil
+  | cons a l ih => exact .cons (hR a) ih
+
+theorem All2.trans {α : Type} {R : α → α → Prop} (hR : ∀ a b c, R a b → R b c → R a c) {l m n : List α}
+    (h1 : All2 R l m) (h2 : All2 R m n) : All2 R l n := by
+  induction h1 generalizing n with
+  | nil => cases h2; exact .nil
+  | cons hab _ ih =>
+    cases h2 with
+    | cons hbc h2' => exact .cons (hR _ _ _ hab hbc) (ih h2')
+
+/-- an entry-wise relation followed by a permutation is a permutation followed by the entry-wise relation -/
+theorem All2.perm_lift {α : Type} {R : α → α → Prop} {l' m' : List α} (hp : l'.Perm m') :
+    ∀ l, All2 R l l' → ∃ m, l.Perm m ∧ All2 R m m' := by
+  induction hp with
+  | nil => intro l h; cases h; exact ⟨[], .nil, .nil⟩
+  | cons x _ ih =>
+    intro l h
+    cases h with
+    | cons hab h' =>
+      obtain ⟨m0, hp0, h0⟩ := ih _ h'
+      exact ⟨_ :: m0, hp0.cons _, .cons hab h0⟩
+  | swap x y l0 =>
+    intro l h
+    cases h with
+    | cons hay h' =>
+      cases h' with
+      | cons hbx h'' => exact ⟨_, List.Perm.swap _ _ _, .cons hbx (.cons hay h'')⟩
+  | trans _ _ ih1 ih2 =>
+    intro l h
+    obtain ⟨m1, hp1, h1⟩ := ih1 l h
+    obtain ⟨m2, hp2, h2⟩ := ih2 m1 h1
+    exact ⟨m2, hp1.trans hp2, h2⟩
+
+/-- the induction step: permute the wrapped list and replace every wrapped problem by a corresponding one -/
+theorem sim_structured_step (name : String) (ext : List String) (inner mid inner' : List AssetProblem)
+    (hp : inner.Perm mid) (hs : All2 Sim mid inner') (gridI : List Nat)
+    (hg : ∀ a ∈ inner, Good gridI a) (hg' : ∀ a ∈ inner', Good gridI a) :
+    Sim (structured name ext inner gridI) (structured name ext inner' gridI) := by
+  have hgm : ∀ a ∈ mid, Good gridI a := fun a ha => hg a (hp.mem_iff.mpr ha)
+  have h1 : Sim (structured name ext inner gridI) (structured name ext mid gridI) :=
+    ⟨fwd_structured_perm name ext inner mid hp gridI hg, fwd_structured_perm name ext mid inner hp.symm gridI hgm⟩
+  have h2 : Sim (structured name ext mid gridI) (structured name ext inner' gridI) :=
+    ⟨fwd_structured_pointwise name ext mid inner' (All2.imp (fun _ _ h => h.1) hs) gridI hgm hg',
+     fwd_structured_pointwise name ext inner' mid (All2.imp (fun _ _ h => h.2) (All2.flip hs)) gridI hg' hgm⟩
+  exact h1.trans h2
+
+/-- an object tree: a finished asset problem, or a structured asset around a list of object trees -/
+inductive PTree where
+  | leaf (a : AssetProblem)
+  | node (name : String) (ext : List String) (inner : List PTree)
+
+mutual
+/-- the problem of an object tree on the grid `gridI` -/
+def PTree.build (gridI : List Nat) : PTree → AssetProblem
+  | .leaf a => a
+  | .node name ext inner => structured name ext (buildL gridI inner) gridI
+def buildL (gridI : List Nat) : List PTree → List AssetProblem
+  | [] => []
+  | t :: ts => t.build gridI :: buildL gridI ts
+end
+
+mutual
+/-- every leaf is well-formed and local -/
+def PTree.good (gridI : List Nat) : PTree → Prop
+  | .leaf a => Good gridI a
+  | .node _ _ inner => goodL gridI inner
+def goodL (gridI : List Nat) : List PTree → Prop
+  | [] => True
+  | t :: ts => t.good gridI ∧ goodL gridI ts
+end
+
+mutual
+theorem good_build (gridI : List Nat) : ∀ t : PTree, t.good gridI → Good gridI (t.build gridI)
+  | .leaf a, h => by simpa [PTree.good, PTree.build] using h
+  | .node name ext inner, h => by
+    rw [PTree.build]
+    exact good_structured name ext _ gridI (good_buildL gridI inner (by simpa [PTree.good] using h))
+theorem good_buildL (gridI : List Nat) : ∀ ts : List PTree, goodL gridI ts → ∀ a ∈ buildL gridI ts, Good gridI a
+  | [], _ => by intro a ha; simp [buildL] at ha
+  | t :: ts, h => by
+    intro a ha
+    rw [goodL] at h
+    rw [buildL, List.mem_cons] at ha
+    rcases ha with rfl | ha
+    · exact good_build gridI t h.1
+    · exact good_buildL gridI ts h.2 a ha
+end
+
+/-- lists of object trees equal up to the order of the lists at every level of nesting -/
+inductive LPerm : List PTree → List PTree → Prop
+  | nil : LPerm [] []
+  | leaf (a : AssetProblem) {ts ts' : List PTree} : LPerm ts ts' → LPerm (.leaf a :: ts) (.leaf a :: ts')
+  | node (name : String) (ext : List String) {cs cs' ts ts' : List PTree} :
+      LPerm cs cs' → LPerm ts ts' → LPerm (.node name ext cs :: ts) (.node name ext cs' :: ts')
+  | swap (t1 t2 : PTree) (ts : List PTree) : LPerm (t1 :: t2 :: ts) (t2 :: t1 :: ts)
+  | trans {a b c : List PTree} : LPerm a b → LPerm b c → LPerm a c
+
+/-- **wrappers in wrappers**: for lists of object trees equal up to the order of the wrapped lists at every level, the
+    built problems correspond (`Sim`) entry by entry after a permutation -/
+theorem lperm_sim (gridI : List Nat) {ts ts' : List PTree} (h : LPerm ts ts') :
+    goodL gridI ts → goodL gridI ts' ∧
+      ∃ mid, (buildL gridI ts).Perm mid ∧ All2 Sim mid (buildL gridI ts') := by
+  induction h with
+  | nil => intro _; exact ⟨by simp [goodL], [], by simp [buildL], by rw [buildL]; exact .nil⟩
+  | @leaf a ts ts' _ ih =>
+    intro hg
+    rw [goodL] at hg
+    obtain ⟨hg', mid, hp, hs⟩ := ih hg.2
+    refine ⟨by rw [goodL]; exact ⟨hg.1, hg'⟩, a :: mid, ?_, ?_⟩
+    · rw [buildL, PTree.build]; exact hp.cons a
+    · rw [buildL, PTree.build]; exact .cons (Sim.refl a) hs
+  | @node name ext cs cs' ts ts' _ _ ihc iht =>
+    intro hg
+    rw [goodL, PTree.good] at hg
+    obtain ⟨hgc', midc, hpc, hsc⟩ := ihc hg.1
+    obtain ⟨hgt', mid, hp, hs⟩ := iht hg.2
+    have hsim := sim_structured_step name ext (buildL gridI cs) midc (buildL gridI cs') hpc hsc gridI
+      (good_buildL gridI cs hg.1) (good_buildL gridI cs' hgc')
+    refine ⟨by rw [goodL, PTree.good]; exact ⟨hgc', hgt'⟩, structured name ext (buildL gridI cs) gridI :: mid, ?_, ?_⟩
+    · rw [buildL, PTree.build]; exact hp.cons _
+    · rw [buildL, PTree.build]; exact .cons hsim hs
+  | swap t1 t2 ts =>
+    intro hg
+    rw [goodL, goodL] at hg
+    refine ⟨by rw [goodL, goodL]; exact ⟨hg.2.1, hg.1, hg.2.2⟩, buildL gridI (t2 :: t1 :: ts), ?_, All2.refl Sim.refl _⟩
+    rw [buildL, buildL, buildL, buildL]
+    exact List.Perm.swap _ _ _
+  | trans _ _ ih1 ih2 =>
+    intro hg
+    obtain ⟨hgb, mid1, hp1, hs1⟩ := ih1 hg
+    obtain ⟨hgc, mid2, hp2, hs2⟩ := ih2 hgb
+    obtain ⟨m, hpm, hsm⟩ := All2.perm_lift hp2 mid1 hs1
+    exact ⟨hgc, m, hp1.trans hpm, All2.trans (R := Sim) (fun _ _ _ h1 h2 => Sim.trans h1 h2) hsm hs2⟩
+
 end EAO.NestedPerm
